@@ -139,6 +139,16 @@ type Conn struct {
 
 	current Settings
 
+	// hdrRest, hdrFields and hdrRegularSeen carry a response header block from
+	// its HEADERS frame to the CONTINUATION frames that finish it: the tail of a
+	// field the frame boundary cut in half, how many fields the block has
+	// produced so far, and whether a regular field has been seen. Only one
+	// header block can be open on a connection at a time. They belong to the
+	// read loop.
+	hdrRest        []byte
+	hdrFields      int
+	hdrRegularSeen bool
+
 	// serverS belongs to the read loop once the handshake is over.
 	serverS Settings
 
@@ -1444,7 +1454,7 @@ func (c *Conn) readStream(fr *FrameHeader, res *fasthttp.Response) (err error) {
 	switch fr.Type() {
 	case FrameHeaders, FrameContinuation:
 		h := fr.Body().(FrameWithHeaders)
-		err = c.readHeader(h.Headers(), res)
+		err = c.readHeader(fr, h.Headers(), res)
 	case FrameResetStream:
 		// The server gave up on the stream. Without this the request would sit
 		// there until MaxResponseTime, or forever if that check is disabled.
@@ -1487,26 +1497,62 @@ func (c *Conn) updateWindow(streamID uint32, size int) {
 	c.writeOut(fr)
 }
 
-func (c *Conn) readHeader(b []byte, res *fasthttp.Response) error {
+func (c *Conn) readHeader(fr *FrameHeader, b []byte, res *fasthttp.Response) error {
 	var err error
 	hf := AcquireHeaderField()
 	defer ReleaseHeaderField(hf)
 
 	dec := c.dec
 
-	var regularSeen bool
+	// A HEADERS frame starts a block. A CONTINUATION carries on with the one
+	// that is open, including the half of a field the previous frame ended in:
+	// a block may be cut anywhere (RFC 7540 4.3).
+	if fr.Type() != FrameContinuation {
+		c.hdrRest = c.hdrRest[:0]
+		c.hdrFields = 0
+		c.hdrRegularSeen = false
+	}
+
+	b = append(c.hdrRest, b...)
+	c.hdrRest = b[:0]
 
 	for len(b) > 0 {
-		b, err = dec.Next(hf, b)
+		pb := b
+
+		b, err = dec.nextField(hf, true, c.hdrFields, b)
 		if err != nil {
+			if errors.Is(err, ErrUnexpectedSize) && !fr.Flags().Has(FlagEndHeaders) {
+				// The rest of the field is in the next frame. Size updates in
+				// front of it have been applied and must not be kept.
+				for len(pb) > 0 && pb[0]&0xe0 == 0x20 {
+					rest, _, ierr := readInt(5, pb)
+					if ierr != nil {
+						break
+					}
+
+					pb = rest
+				}
+
+				c.hdrRest = append(c.hdrRest, pb...)
+
+				return nil
+			}
+
 			return err
 		}
+
+		// A fragment that ends in a dynamic table size update decodes no field.
+		if c.hdrFields == 0 && hf.Empty() {
+			continue
+		}
+
+		c.hdrFields++
 
 		// A response carries exactly one pseudo-header, :status, and it must
 		// come before any regular field.
 		// https://httpwg.org/specs/rfc7540.html#rfc.section.8.1.2.4
 		if hf.IsPseudo() {
-			if regularSeen {
+			if c.hdrRegularSeen {
 				return errPseudoAfterRegular
 			}
 
@@ -1524,7 +1570,7 @@ func (c *Conn) readHeader(b []byte, res *fasthttp.Response) error {
 			continue
 		}
 
-		regularSeen = true
+		c.hdrRegularSeen = true
 
 		if hasUpperCase(hf.KeyBytes()) {
 			return errUpperCaseHeader
